@@ -131,6 +131,11 @@ def run(ctx):
     crlf = [([(p, (t.replace("\n", "\r\n") if t is not None else None)) for p, t in f], b, tag + "+crlf") for f, b, tag in stores[::3]]
     lead = [([(p, ("\n\n" + t if t is not None else None)) for p, t in f], b, tag + "+leading-blank") for f, b, tag in stores[1::5]]
     stores = stores + crlf + lead
+    # statements that start at the very first character of a file, incl. one-letter mnemonics and single-token statements
+    for t in ["j main\nmain:\n li a7, 10\n ecall\n", "b end\nend: ret\n", "j x\nx: j x\n", "ret\n", "x: j x\n", "a: b a\n", "j j\nj: ret\n",
+              "li a0, 1\nj e\ne: ret\n", "( j x\nx: ret\n"]:
+        stores.append((pipe.single(t), "a.s", "offset0"))
+        stores.append(([("a.s", 'main:\n li a7, 10\n ecall\n.include "t.s"\n'), ("t.s", t)], "a.s", "offset0-included"))
     pcmds = [lib.store_cmd("parse", f, b) for f, b, _ in stores]
     pimpl = lib.run_impl(ctx, pcmds, tag="impl-parse")
     pmodel = lib.run_model(ctx, pcmds, tag="model-parse")
@@ -143,6 +148,17 @@ def run(ctx):
         # numbering = import order, which the parse dump exposes through the program-entry/file ids)
         texts = [t for _, t in f if t is not None]
         order = import_order(f, b)
+        # a node's range covers every operand token it carries (same file): the statement's text, not a part of it
+        for nm in re.finditer(r"N\((\w+) ([^|]*?) \| (\d+)\.(\d+)\.(\d+)-(\d+)\.(\d+)\.(\d+)/(\d+)\)", a):
+            if nm.group(1) in ("progentry", "funcentry"):
+                continue
+            ns, ne, nf = int(nm.group(5)), int(nm.group(8)), nm.group(9)
+            for om in re.finditer(r"@(\d+)\.(\d+)\.(\d+)-(\d+)\.(\d+)\.(\d+)/(\d+)", nm.group(2)):
+                os_, oe, of = int(om.group(3)), int(om.group(6)), om.group(7)
+                if of != nf or os_ < ns or oe > ne:
+                    failing.append(dict(profile="debug", kind=tag, files=f, impl=nm.group(0),
+                                        why="node range %d..%d (file %s) does not cover its own token at %d..%d (file %s)" % (ns, ne, nf, os_, oe, of)))
+                    break
         for out, what in ((a, "parser output"), (d, "diagnostic")):
             for mm in RANGE.finditer(lib._PICKS.sub("", out)):
                 sl, sc, sr, el, ec, er, fi = (int(x) for x in mm.groups())
